@@ -28,7 +28,11 @@ class _Stop(Exception):
     pass
 
 
-def enum_loops(h, w, checks=(), watches=(), stop=None, cap=None, variant=0, final=None):
+class Budget(RuntimeError):
+    pass
+
+
+def enum_loops(h, w, checks=(), watches=(), stop=None, cap=None, variant=0, final=None, budget=None):
     """All edge sets of the h x w vertex grid graph that are empty or exactly one simple cycle (tuples of bools in base.loops
     key order) and pass the filters.
 
@@ -45,6 +49,7 @@ def enum_loops(h, w, checks=(), watches=(), stop=None, cap=None, variant=0, fina
     final:   fn(loop) on complete loops;
     stop:    stop silently after that many loops (used only to pick seed loops);
     cap:     raise RuntimeError beyond that many loops (keeps an oracle call from running away);
+    budget:  raise Budget after that many search nodes (used only when instances are selected, see within_budget);
     variant: 0 = canonical order of the choices; k > 0 = a fixed pseudo-random order (seed loops of large boards)."""
     nh = h * (w - 1)
     m = nh + (h - 1) * w
@@ -77,6 +82,7 @@ def enum_loops(h, w, checks=(), watches=(), stop=None, cap=None, variant=0, fina
     O2 = ((False, False),)
     O1 = (((True, False), (False, True)), ((False, True), (True, False)))
     O0 = (((False, False), (True, True)), ((True, True), (False, False)))
+    nodes = [0]
 
     def link(u, v, nopen):
         a = mate[u]
@@ -109,6 +115,10 @@ def enum_loops(h, w, checks=(), watches=(), stop=None, cap=None, variant=0, fina
             return
         y, x = order[i]
         s = y * w + x
+        if budget is not None:
+            nodes[0] += 1
+            if nodes[0] > budget:
+                raise Budget("enum_loops: more than %d search nodes on %d x %d" % (budget, h, w))
         din = (1 if (y > 0 and E[nh + (y - 1) * w + x]) else 0) + (1 if (x > 0 and E[y * (w - 1) + x - 1]) else 0)
         if closed or din == 2:
             opts = O2
@@ -161,6 +171,17 @@ def enum_loops(h, w, checks=(), watches=(), stop=None, cap=None, variant=0, fina
     except _Stop:
         pass
     return out
+
+
+def within_budget(h, w, checks=(), watches=(), final=None, budget=120000, maxsol=20000):
+    """True when the exact enumeration of the instance needs at most `budget` search nodes and has at most `maxsol`
+    solutions.  Deterministic (node counts, not time); used to SELECT instances of the largest boards, where only clue sets
+    that pin the loop down well can be enumerated - the enumeration itself is never cut short."""
+    try:
+        enum_loops(h, w, checks, watches, cap=maxsol, final=final, budget=budget)
+    except RuntimeError:
+        return False
+    return True
 
 
 def vertex_edges(h, w):
@@ -440,7 +461,8 @@ RULE = Slitherlink()
 
 def selftest():
     """The frontier enumerator against base.loops() on every small board, and the pruned large-board oracle against the
-    original filter oracle on the small ladder (all layouts with <= 2 clues, plus dense clue sets of every loop of 3 x 3)."""
+    original filter oracle on the small ladder (all layouts with <= 1-2 clues, plus the dense families of every loop of 3 x 3
+    and 2 x 4 cells and every 6th / 7th loop of 3 x 4 / 4 x 3 cells)."""
     H, V, m = edge_ids(3, 4)
     idx, m2 = base.edge_index(3, 4)
     assert m == m2 and all(idx[frozenset([(y, x), (y, x + 1)])] == H(y, x) for y in range(3) for x in range(3))
@@ -457,13 +479,13 @@ def selftest():
     r = RULE
     n = 0
     for h, w in [(1, 1), (1, 3), (2, 2), (2, 3), (3, 2), (3, 3), (1, 4), (4, 2), (3, 4), (4, 3)]:
-        lays, k = base.layouts(h * w, -1, [0, 1, 2, 3, 4], 2500)
+        lays, k = base.layouts(h * w, -1, [0, 1, 2, 3, 4], 1000)
         for cells in lays:
             p = {"height": h, "width": w, "problem": base.grid(cells, h, w)}
             assert sorted(r.readings_small(p)) == sorted(r.readings_large(p)), p
             n += 1
-    for h, w in [(3, 3), (2, 4), (3, 4)]:
-        for g in base.loops(h + 1, w + 1):
+    for h, w, step in [(3, 3, 1), (2, 4, 1), (3, 4, 6), (4, 3, 7)]:
+        for g in base.loops(h + 1, w + 1)[::step]:
             for clues in dense_family(clues_of(h, w, g), h, w, lambda v, dl, c: v + dl if 0 <= v + dl <= 4 else None, True):
                 p = {"height": h, "width": w, "problem": [[clues.get((y, x), -1) for x in range(w)] for y in range(h)]}
                 a = r.readings_small(p)
